@@ -238,7 +238,7 @@ type Build struct {
 	How     int
 	Variant int // directive spelling variant
 	Costs   []CostEntry
-	Events  int // 0 none, 1 ReportEvent, 2 Debug
+	Events  int // 0 none, 1 ReportEvent, 2 Debug, 3 both
 	Infix   bool
 	Pure    bool // register lock-free, non-logging custom operators (for programs shared between goroutines)
 }
@@ -382,6 +382,9 @@ func NewConfig(u *Universe, log *Log, b Build) (*eval.Config, string) {
 	case 1:
 		eval.EnableReportEvent(cc)
 	case 2:
+		eval.EnableDebug(cc)
+	case 3: // both (a config may well say so)
+		eval.EnableReportEvent(cc)
 		eval.EnableDebug(cc)
 	}
 	if b.Infix {
